@@ -68,3 +68,57 @@ def digest_arrays(arrs):
         h.update(str(a.shape).encode())
         h.update(a.tobytes())
     return h.hexdigest()
+
+
+# ----------------------------------------------------------------------------------------
+# uninitialised memory: np.empty / np.empty_like / np.ndarray return poison-filled arrays
+# ----------------------------------------------------------------------------------------
+POISONS = [0x7ff4dead0000beef, 0x7e37e43c8800759c]   # a signalling-NaN pattern, 1e300
+
+
+class PoisonNumpy(object):
+    """Proxy for the numpy module handed to a module under test."""
+
+    def __init__(self, bits):
+        import numpy
+        self._np = numpy
+        self._bits = numpy.uint64(bits)
+
+    def __getattr__(self, name):
+        return getattr(self._np, name)
+
+    def empty(self, shape, dtype=float, order="C", **kw):
+        a = self._np.empty(shape, dtype=dtype, order=order)
+        if a.dtype == self._np.float64:
+            a.view(self._np.uint64)[...] = self._bits
+        else:
+            a[...] = 77 if a.dtype.kind in "iu" else 0
+        return a
+
+    def empty_like(self, proto, dtype=None, **kw):
+        a = self._np.empty_like(proto, dtype=dtype)
+        if a.dtype == self._np.float64:
+            a.view(self._np.uint64)[...] = self._bits
+        return a
+
+
+@contextlib.contextmanager
+def poisoned(modnames, which=0):
+    """Replace the `np` global of the named (already imported) modules by a poison proxy."""
+    import sys
+    proxy = PoisonNumpy(POISONS[which])
+    saved = []
+    for mn in modnames:
+        mod = sys.modules[mn]
+        saved.append((mod, mod.np))
+        mod.np = proxy
+    try:
+        yield proxy
+    finally:
+        for mod, old in saved:
+            mod.np = old
+
+
+def has_poison(arr):
+    a = np.ascontiguousarray(arr, dtype=np.float64).view(np.uint64)
+    return bool(np.isin(a, np.array(POISONS, dtype=np.uint64)).any())
